@@ -81,9 +81,15 @@ let all_done p =
   done; !live
 let pending_empty : (int, int * int) Hashtbl.t = Hashtbl.create 8   (* actor -> (line, queue) of an "empty" read of an unknown queue *)
 let wline = function WObs (l, _, _) -> l | WNs (l, _, _) -> l | WCancel -> -1
+let win_len : (int, int) Hashtbl.t = Hashtbl.create 8
+let rec take n = function [] -> [] | x :: r -> if n <= 0 then [] else x :: take (n - 1) r
 let note_obs aptr r =
   if not (Hashtbl.mem line_epoch (wline r)) then Hashtbl.replace line_epoch (wline r) !world;
-  Hashtbl.replace win aptr (r :: (match Hashtbl.find_opt win aptr with Some l -> l | None -> []))
+  let l = (match Hashtbl.find_opt win aptr with Some l -> l | None -> []) in
+  let n = (match Hashtbl.find_opt win_len aptr with Some n -> n | None -> 0) in
+  (* an idle scheduler reads for ever: only its latest observations can matter for its next stop decision *)
+  if n >= 512 then begin Hashtbl.replace win aptr (r :: take 255 l); Hashtbl.replace win_len aptr 256 end
+  else begin Hashtbl.replace win aptr (r :: l); Hashtbl.replace win_len aptr (n + 1) end
 let learn_queue aptr p =
   match Hashtbl.find_opt pending_empty aptr with
   | Some (l, qp) ->
@@ -131,7 +137,7 @@ let sched_stop ln aptr =
            | _ -> incr stops_outside)
         end) pools
   end;
-  Hashtbl.remove win aptr
+  Hashtbl.remove win aptr; Hashtbl.remove win_len aptr
 
 let apply ln desc e units pools seens =
   match step !cur e with
@@ -218,7 +224,7 @@ let () =
          | "QPOP", [_; t; _] when hex t = 0 -> Hashtbl.remove pending_empty aptr
          | "REQLOAD", [_; site; v] when hex site = 2 ->
            Hashtbl.remove pending_empty aptr; if hex v land 2 <> 0 then note_obs aptr WCancel
-         | _ -> Hashtbl.remove win aptr; Hashtbl.remove pending_empty aptr);
+         | _ -> Hashtbl.remove win aptr; Hashtbl.remove win_len aptr; Hashtbl.remove pending_empty aptr);
         (match kind, f with
          (* ---- harness records ---- *)
          | "K1015", [idx; ptr; _] -> Hashtbl.replace pool_of_ptr (int_of_string ptr) (int_of_string idx)
